@@ -56,6 +56,8 @@ type Case struct {
 	Noise int `json:"noise,omitempty"`
 	// NoLogger serves the case on a service configured with SetLogger(nil).
 	NoLogger bool `json:"noLogger,omitempty"`
+	// NoQueue serves the case without a queue group.
+	NoQueue bool `json:"noQueue,omitempty"`
 }
 
 func (c Case) String() string {
@@ -164,7 +166,10 @@ func Marker(hi int, kind, method string) string {
 // Build registers the case's handlers on a new service.
 func Build(c *Case, rs *runState) *res.Service {
 	s := res.NewService(c.Name)
-	s.SetWorkerCount(c.Workers)
+	s.SetWorkerCount(c.Workers) // 0 (or less) selects the default count
+	if c.NoQueue {
+		s.SetQueueGroup("") // plain subscriptions: nothing de-duplicates overlapping ones
+	}
 	for hi, hs := range c.Handlers {
 		hi, hs := hi, hs
 		var opts []res.Option
@@ -488,7 +493,11 @@ func Route(c *Case, rq *ReqSpec) Dispatch {
 	}
 	var entries []refmux.Entry
 	for i, h := range c.Handlers {
-		entries = append(entries, refmux.Entry{Pattern: c.Name + "." + h.Pattern, Marker: i, Group: h.Group, Parallel: h.Parallel})
+		full := c.Name + "." + h.Pattern
+		if h.Pattern == "" {
+			full = c.Name
+		}
+		entries = append(entries, refmux.Entry{Pattern: full, Marker: i, Group: h.Group, Parallel: h.Parallel})
 	}
 	entries = append(entries, refmux.Entry{Pattern: c.Name + ".verifprobe", Marker: len(c.Handlers)})
 	best, _ := refmux.Route(entries, d.RName)
@@ -606,7 +615,7 @@ func payloadOK(p string) (ok, obj bool) {
 
 // ---- generators ----------------------------------------------------------------
 
-var patternPool = []string{"model", "item.$id", "item.$id.sub", "col.>", "a.new.set", "call.get", "$x.y", "*", "item.*.other", "deep.$a.$b.c", "get", "x.new", "item.fixed"}
+var patternPool = []string{"", "model", "item.$id", "item.$id.sub", "col.>", "a.new.set", "call.get", "$x.y", "*", "item.*.other", "deep.$a.$b.c", "get", "x.new", "item.fixed"}
 
 // GenHandlers generates 1-3 handler specs with structurally distinct patterns.
 func GenHandlers() *rapid.Generator[[]HandlerSpec] {
@@ -617,7 +626,11 @@ func GenHandlers() *rapid.Generator[[]HandlerSpec] {
 		for len(hs) < n {
 			p := rapid.SampledFrom(patternPool).Draw(t, "pattern")
 			if seen[refmux.StructKey(p)] {
-				p = "u" + strconv.Itoa(len(hs)) + "." + p
+				if p == "" {
+					p = "u" + strconv.Itoa(len(hs))
+				} else {
+					p = "u" + strconv.Itoa(len(hs)) + "." + p
+				}
 			}
 			seen[refmux.StructKey(p)] = true
 			h := HandlerSpec{Pattern: p}
@@ -645,6 +658,9 @@ func GenHandlers() *rapid.Generator[[]HandlerSpec] {
 }
 
 func instantiate(t *rapid.T, name, pattern string) string {
+	if pattern == "" {
+		return name // the root resource, named like the service
+	}
 	var out []string
 	part := rapid.SampledFrom([]string{"1", "42", "a", "new", "get", "set", "x-y", "$z", "call", "ID"})
 	for _, tk := range refmux.Tokens(pattern) {
@@ -796,8 +812,9 @@ func GenRequest(name string, hs []HandlerSpec, uniq string) *rapid.Generator[Req
 // GenCase generates a sequential case.
 func GenCase() *rapid.Generator[Case] {
 	return rapid.Custom(func(t *rapid.T) Case {
-		c := Case{Name: rapid.SampledFrom([]string{"svc", "svc", "a.b"}).Draw(t, "name"), Workers: rapid.SampledFrom([]int{1, 2, 4}).Draw(t, "workers")}
+		c := Case{Name: rapid.SampledFrom([]string{"svc", "svc", "a.b"}).Draw(t, "name"), Workers: rapid.SampledFrom([]int{1, 2, 4, 0}).Draw(t, "workers")}
 		c.NoLogger = rapid.IntRange(0, 4).Draw(t, "nologger") == 0
+		c.NoQueue = rapid.IntRange(0, 3).Draw(t, "noqueue") == 0
 		c.Handlers = GenHandlers().Draw(t, "handlers")
 		n := rapid.IntRange(1, 4).Draw(t, "nreq")
 		for i := 0; i < n; i++ {
